@@ -50,7 +50,7 @@ def observe(ds):
     out["rows"] = sorted(map(tuple, it.astype(str).values.tolist()))
     nt = ds.interaction_table(format="pandas", original_ids=False)
     out["rows_by_number"] = sorted(map(tuple, nt.astype(str).values.tolist()))
-    out["user_rows"] = {str(u): (lambda r: None if r is None else sorted(zip(map(str, r.ids()), map(float, r.field("rating")))))(ds.user_row(u)) for u in ds.users.ids()}
+    out["user_rows"] = {str(u): (lambda r: None if r is None else sorted(zip(map(str, r.ids()), map(float, r.field("rating") if r.field("rating") is not None else []))))(ds.user_row(u)) for u in ds.users.ids()}
     st = ds.item_stats(); out["item_counts"] = {str(i): int(c) for i, c in zip(st.index, st["count"])}
     m = ds.interactions().matrix().scipy(attribute="rating").tocoo()
     out["matrix"] = sorted(zip(map(int, m.row), map(int, m.col), map(float, m.data)))
